@@ -459,7 +459,7 @@ func (te *TemplateEngine) renderConditionals(content string, conditions map[stri
 			blockContent := matches[2]
 
 			// 检查是否有else部分
-			elsePattern := regexp.MustCompile(`(?s)(.*?)\{\{else\}\}(.*?)`)
+			elsePattern := regexp.MustCompile(`(?s)^(.*?)\{\{else\}\}(.*)$`)
 			elseMatches := elsePattern.FindStringSubmatch(blockContent)
 
 			if len(elseMatches) >= 3 {
@@ -619,7 +619,7 @@ func (te *TemplateEngine) renderLoopConditionals(content string, itemData map[st
 			blockContent := matches[2]
 
 			// 检查是否有else部分
-			elsePattern := regexp.MustCompile(`(?s)(.*?)\{\{else\}\}(.*?)`)
+			elsePattern := regexp.MustCompile(`(?s)^(.*?)\{\{else\}\}(.*)$`)
 			elseMatches := elsePattern.FindStringSubmatch(blockContent)
 
 			var ifContent, elseContent string
